@@ -56,6 +56,11 @@ MUTANTS = [
     ('C04', 'pwl_calibration_lib.py', '      last_heights_change["CONVEXITY_1"] = heights - rolled_back_heights',
      '      last_heights_change["CONVEXITY_0"] = heights - rolled_back_heights',
      'L4', 'bookkeeping key mismatch'),
+    ('C04', 'pwl_calibration_lib.py', '      bias = tf.constant(output_min, shape=bias.shape, dtype=bias.dtype)\n      heights_delta = (output_max - (bias + sum_heights)) / num_heights',
+     '      bias = tf.constant(output_min, shape=bias.shape, dtype=bias.dtype)\n      heights_delta = (output_max - (bias + sum_heights)) / (num_heights + 1)',
+     'L2', 'clamped-min shares the residual over n+1 instead of n'),
+    ('C08', 'pwl_calibration_lib.py', '      heights_delta = bias_delta\n', '      heights_delta = bias_delta / 2\n', 'L2',
+     'unbounded-min: heights move by half the bias step (not the equal-share projection)'),
     # ---- C06
     ('C06', 'linear_lib.py', '    monotonic_dominances = [(j, i) for i, j in monotonic_dominances]',
      '    monotonic_dominances = [(i, j) for i, j in monotonic_dominances]',
